@@ -726,7 +726,7 @@ def main(argv):
     if len(covered) != n_trans:
         machinery_failure(PID, f"tours cover {len(covered)} of {n_trans} transitions")
     n_tour = len(tasks)
-    n_random = 120 if tier == "quick" else 800
+    n_random = 100 if tier == "quick" else 1500
     for _ in range(n_random):
         calls, abss = [], []
         penv = rnd.choice([{}, {}, {"APP_W": "[3]"}, {"APP_W": "[3]", "OTH_V": "4"}])
